@@ -371,7 +371,8 @@ impl PrivateBatchProver {
 /// this only improves failure latency and error quality.
 fn ensure_leaf_batch_compatible(proofs: &[ProofWithPublicInputs<F, C, D>]) -> Result<()> {
     use crate::private_batch::circuit::constants::{
-        ASSET_ID_START, BLOCK_HASH_START, NULLIFIER_START, VOLUME_FEE_BPS_START,
+        ASSET_ID_START, BLOCK_HASH_START, EXIT_1_START, EXIT_2_START, NULLIFIER_START,
+        OUTPUT_AMOUNT_1_START, OUTPUT_AMOUNT_2_START, VOLUME_FEE_BPS_START,
     };
     use std::collections::HashMap;
 
@@ -455,6 +456,37 @@ fn ensure_leaf_batch_compatible(proofs: &[ProofWithPublicInputs<F, C, D>]) -> Re
             "every supplied leaf proof is all-dummy (block_hash == 0): such a batch \
              settles nothing; supply at least one real leaf proof"
         );
+    }
+
+    // The circuit groups the (dummy-masked) exit outputs by account and
+    // range-checks every grouped sum to 32 bits, so a batch whose real leaves
+    // pay one account more than u32::MAX in total can never be proved. Mirror
+    // that here so it fails at commit time instead of after the recursive
+    // proving run. Dummy slots are masked to (zero account, 0) in-circuit and
+    // therefore contribute nothing.
+    let mut exit_totals: HashMap<[u64; 4], u64> = HashMap::new();
+    for (idx, (proof, meta)) in proofs.iter().zip(metas.iter()).enumerate() {
+        if meta.block_hash == [0u64; 4] {
+            continue;
+        }
+        for (exit_start, amount_start) in [
+            (EXIT_1_START, OUTPUT_AMOUNT_1_START),
+            (EXIT_2_START, OUTPUT_AMOUNT_2_START),
+        ] {
+            let account: [u64; 4] =
+                core::array::from_fn(|i| proof.public_inputs[exit_start + i].to_canonical_u64());
+            let amount = proof.public_inputs[amount_start].to_canonical_u64();
+            let total = exit_totals.entry(account).or_insert(0);
+            *total = total.saturating_add(amount);
+            if *total > u32::MAX as u64 {
+                bail!(
+                    "leaf proof {} brings the total paid to one exit account to {}, above the \
+                     32-bit limit the private-batch circuit enforces on every grouped exit sum",
+                    idx,
+                    *total
+                );
+            }
+        }
     }
     Ok(())
 }
